@@ -243,6 +243,8 @@ impl<R: RefCounter, PR: PathRefCounter, H: Header> Memory<R, PR, H> {
         )
       };
 
+      #[cfg(rarena_verif)]
+      use crate::verif::shadow_core as core;
       core::ptr::write_bytes(
         self.ptr.add(data_offset),
         0,
